@@ -164,12 +164,35 @@ def getIdent (E : Ext) (ident : Option Str) (attrs : List Attr) (renameAll : Opt
   | some s => pure ⟨original, s, true⟩
   | none => pure ⟨original, renamed, false⟩
 
-/-- `parse_comment_attrs` -/
-def parseCommentAttrs (E : Ext) (attrs : List Attr) : List Str :=
+/-- the lines of a doc string: `doc.replace("\r\n", "\n").split(['\n', '\r'])` — split at `\n`, `\r\n`
+and lone `\r` (never empty: the empty string has one empty line) -/
+def docLines : Str → List Str
+  | [] => [[]]
+  | c :: r =>
+    if c = '\r' ∧ r.head? = some '\n' then docLines r
+    else if c = '\n' ∨ c = '\r' then [] :: docLines r
+    else match docLines r with
+      | l :: ls => (c :: l) :: ls
+      | [] => [[c]]
+
+/-- `split_comment_lines`: every line trimmed -/
+def splitCommentLines (U : UnicodeOps) (doc : Str) : List Str := (docLines doc).map U.trim
+
+/-- the comment entries of the `#[doc = ".."]` strings of one item, in order: each string trimmed
+(`expr_to_string`), then one entry per line -/
+def docEntries (U : UnicodeOps) (docs : List Str) : List Str :=
+  docs.flatMap fun d => splitCommentLines U (U.trim d)
+
+/-- the string literals of the `doc` attributes (non-string values are ignored by `expr_to_string`) -/
+def docStrings (attrs : List Attr) : List Str :=
   attrs.filterMap fun a =>
     match a.val with
-    | .nameValue segs v => if segs == [s%"doc"] then exprToString E v else none
+    | .nameValue segs (some (.str s)) => if segs == [s%"doc"] then some s else none
     | _ => none
+
+/-- `parse_comment_attrs` -/
+def parseCommentAttrs (E : Ext) (attrs : List Attr) : List Str :=
+  docEntries E.U (docStrings attrs)
 
 def hasPathArg (a : Attr) (ident name : Str) : Bool :=
   (getMetaItems a ident).any fun m => match m with
